@@ -34,6 +34,9 @@ URIS = ["https://rp.example.com/cb", "http://rp.example.com/cb", "http://localho
         "http://[::1]/cb", "https://localhost/cb", "https://rp.example.com/cb2"]
 BAD_OTHER = [None, None, None, None, {"initiate_login_uri": "http://rp.example.com/login"}, {"id_token_encrypted_response_enc": "A128CBC-HS256"},
              {"token_endpoint_auth_signing_alg": "none"}, {"request_uris": ["https://rp.example.com/r?x=1"]}]
+# further parameters that are fine: the registration goes through (or fails as a whole) whatever their shape
+OK_OTHER = [{"request_uris": ["https://rp.example.com/r#frag"]}, {"request_uris": ["https://rp.example.com/r#a#b", "https://rp.example.com/r2"]},
+            {"initiate_login_uri": "https://rp.example.com/login"}, {"contacts": ["ops@rp.example.com"]}]
 
 
 def cases(rng, tier):
@@ -45,6 +48,8 @@ def cases(rng, tier):
         for rt in RTS:
             out.append({"t": "hist", "ops": [["register", [u], app, rt, None] for u in URIS] +
                         [["register", ["https://rp.example.com/cb", u], app, rt, None] for u in URIS[1:6]]})
+    for other in OK_OTHER:
+        out.append({"t": "hist", "ops": [["register", ["https://rp.example.com/cb"], "web", ["code"], other], ["read", 0, 0]]})
     for _ in range(n):
         ops = []
         nreg = 0
@@ -52,7 +57,7 @@ def cases(rng, tier):
             if rng.random() < 0.7 or nreg == 0:
                 k = rng.choice([1, 1, 1, 2])
                 ops.append(["register", rng.sample(URIS, k), rng.choice(["web", "native", None]), rng.choice([["code"], ["code", "id_token"], ["id_token"], None, ["code id_token"]]),
-                            rng.choice(BAD_OTHER)])
+                            rng.choice(BAD_OTHER + OK_OTHER)])
                 nreg += 1
             else:
                 ops.append(["read", rng.randrange(nreg), rng.randrange(nreg)])
@@ -138,7 +143,7 @@ def model_lines(c, obs):
     nxt = 0
     for op, st in zip(c["ops"], obs["steps"]):
         if op[0] == "register":
-            other_ok = op[4] is None
+            other_ok = op[4] is None or op[4] in OK_OTHER
             shapes = ";".join(f"{s[0]},{'1' if s[1] else '0'},{'1' if s[2] else '0'}" for s in map(shape, op[1]))
             lines.append("\t".join(["reg", "register", "1" if op[2] == "native" else "0", "1" if eff_rt(op[3]) in (None, ["code"]) else "0", "1" if other_ok else "0", shapes]))
         elif st["r"] != "skip":
@@ -193,7 +198,7 @@ def oracle(c, obs):
                 for u in op[1]:
                     if not py_rule(u, op[2], eff_rt(op[3])):
                         v.append({"cls": "inadmissible-uri-stored", "uri": u, "app": op[2], "rt": op[3]})
-                if op[4] is not None:
+                if op[4] is not None and op[4] not in OK_OTHER:
                     v.append({"cls": "inconsistent-metadata-stored", "what": list(op[4])[0]})
                 if st["cid"] in ids or st["secret"] in secrets or st["token"] in tokens:
                     v.append({"cls": "identifier-reused"})
